@@ -1,15 +1,18 @@
 """C09 — Closed-form Lévy-measure integrals equal integrals of the model's own density (DESIGN.md §4 C09).
 
 S (property oracle, independent of M): every `integrate*` route of every family against `mpmath.quad` of
-x^n·density at 30 digits, additivity at the split points, signs, the truncated wrapper, the density itself.
+x^n·density at 30 digits, additivity at the split points, signs, the truncated wrapper (also wrappers of wrappers, built
+with the class or by repeated truncate_levy_measure: integral over the intersection of all intervals), the density itself.
 C (implementation vs M, through Drivers/C09.lean): `_truncated_interval`, `a > b` errors, the polynomial and sign
 logic of `integral_xn_exp_minus_x`, VG `integrate_against_xn`, the HEM closed forms (M returns a closed form as
 the list of its terms Σ c·exp(e) with rational c, e; evaluated here with mpmath), the split-at-zero pattern.
 """
 from __future__ import annotations
 
+import copy
 import math
 import os
+import random
 import warnings
 
 import mpmath as mp
@@ -40,7 +43,23 @@ RULE = ("per model (defaults of HEM/Merton/VG/CGMY, one CGMY draw per activity b
         "degenerate interval [0,0] there. Tolerance: 1e-8*|ref| + 1e-12 + 1e-13*(one-sided tail moment that the closed form "
         "subtracts; Merton: the absolute moment over R); routes that the implementation evaluates with scipy.integrate.quad "
         "(base-class n >= 3 for HEM/Merton/CGMY, CGMY one-sided x^2) get 1e-7*|ref| + 1e-8 (measured <= 3e-10). A fixed list of past failing inputs (the quad-across-zero defect fixed by fd99be5) runs first. Truncations (l, r) are non-zero "
-        "break points. non-trivial = |ref| > 1e-9 and a < b; distinct = distinct (model, route, n, a, b, truncation).")
+        "break points. Nested truncations: per model 3 (thorough 8) truncated measures of truncated measures, 2-3 levels, intervals drawn from "
+        "the non-zero break points in every relative position (inner narrower / wider, overlapping, touching, disjoint), each level built "
+        "with the class TruncatedLevyMeasure or with truncate_levy_measure called again on one (deep-copied) model; every pair a <= b x 2 "
+        "random n (thorough: all) x both routes against the reference integral over the intersection of ALL intervals with [a,b] (0 when "
+        "empty), and the density against nu(x) inside / 0 outside the intersection (end points of any interval are don't-care). "
+        "Parameter regimes (regime_stream, own generator; quick 15 models, thorough 60): the edges of every family's LEGAL box rather than "
+        "the typical boxes of zoo.draw_params, one draw per stratum of a RATIO between parameters -- Merton mu_j/sigma_j in {0}, (0.05,1), "
+        "(1,10), (10,50), (50,120) with sigma_j from 2e-4 to 3 (a negative mu_j is attempted: rejected by the constructor, counted); HEM "
+        "eta1/eta2 in (1e-2,1e-1), (0.3,3), (10,100) x p within 1e-6..1e-2 of 0 / middle / of 1; VG theta/sigma in (-30,-3), (-1,1), (3,30) x nu "
+        "in (1e-3,1e-2) / (0.03,0.4) / (1,10); CGMY g/m in the HEM ratio strata x c in (1e-3,1e-2) / (0.2,2) / (10,100), random y branch. "
+        "Break points there are placed relative to the FEATURES of the density: the jump mean mu_j and mu_j +- k sigma_j (Merton), k decay "
+        "lengths 1/eta1, 1/eta2, 1/lambda_p, 1/lambda_m, 1/m, 1/g on each side (others), k in {0.5, 1, 3, 6}, plus 0 and both infinities; "
+        "every pair x n = 0..3 x both routes (c09.closed_form), additivity / signs on a sub-grid of 8 points, two truncations at feature "
+        "points (class and truncate_levy_measure) x 17 intervals x n = 0..3 x both routes (c09.truncated), 4 quadratures of nu.__call__ "
+        "between adjacent feature points (c09.own_density). The reference pieces are first verified against the analytic value (Gaussian "
+        "partial-moment recurrence with erfc; generalised incomplete gamma function; 50 digits; c09.regime.reference, agreement to 1e-13 "
+        "relative or the piece is discarded and the cases needing it are counted as skipped). non-trivial = |ref| > 1e-9 and a < b; distinct = distinct (model, route, n, a, b, truncation).")
 NOT_PROVED = [
     "special functions: Mathlib has no erf, E1 or incomplete gamma, so Merton (mass, x, x^2; every end-point shape), VG mass and CGMY "
     "(mass for every y < 2, first moment, straddling second moment) are theorems for every function satisfying explicit hypotheses: the "
@@ -54,6 +73,16 @@ NOT_PROVED = [
     "theorem only in value (the named methods are separate code, compared with quadrature and with each other)",
     "the scipy.integrate.quad fallbacks (base-class integrate_against_xn for n >= 3, CGMY one-sided x^2) are numerical: compared only",
     "float rounding / cancellation of the closed forms (conditioning) is absorbed by the tolerance, not modelled",
+    "parameter regimes: the theorems hold for all parameter values of M, but M's closed forms have no float-level shortcuts; a guard in "
+    "the implementation that drops or replaces a term depending on the SIZE of an end point relative to a parameter is only seen by the "
+    "oracle on inputs where it matters -- hence the regime stream (extreme parameter ratios, end points at the features of the density), "
+    "oracle-only. Known there: Merton n >= 3 over intervals much wider than sigma_j (bare scipy quad misses the narrow peak; "
+    "C09-merton-narrow-peak-quadrature)",
+    "nested truncated measures: truncIntegrate_is_intersection / density_zero_outside are stated for ONE wrapper around an arbitrary inner "
+    "measure (so they apply level by level); what TruncatedLevyMeasure.__init__ stores when it is handed a truncated measure is not "
+    "modelled -- the composed statement (integral over the intersection of all intervals, density 0 outside it) is oracle-checked on the "
+    "implementation (c09.truncated / c09.truncated.density with `trunc_chain`), and the interval that finally reaches the wrapped measure "
+    "is compared with M's truncatedIntervalE applied once per level (c09.trunc.model, branch nested)",
 ]
 ASSUMPTIONS = ["the density of each family is the formula of its `__call__` evaluated at the float parameters of the model (VG: c, lambda_p, "
                "lambda_m recomputed from sigma, nu, theta); the harness restates it in mpmath and ties it to `nu(x)` at random points "
@@ -348,20 +377,83 @@ class Case:
         return v if st == "ok" and math.isfinite(v) else None
 
 
-def closed_form_probe(c: Case, route, n, a, b, nu=None, trunc=None):
-    """S: one implementation value against the reference integral (over the intersection when truncated)"""
+class _Spy(LevyMeasure):
+    """innermost measure that records the interval it is finally asked to integrate over (C: nested clipping vs M)"""
+
+    def __init__(self, inner):
+        self.inner, self.seen = inner, None
+
+    def __call__(self, x):
+        return self.inner(x)
+
+    def jump_of_finite_activity(self):
+        return self.inner.jump_of_finite_activity()
+
+    def jump_of_finite_variation(self):
+        return self.inner.jump_of_finite_variation()
+
+    def blumenthal_getoor_index(self):
+        return self.inner.blumenthal_getoor_index()
+
+    def integrate(self, a, b):
+        self.seen = (a, b)
+        return 0.0
+
+    def integrate_against_xn(self, a, b, n):
+        self.seen = (a, b)
+        return 0.0
+
+
+def nested_measure(c: "Case", chain, how, base=None):
+    """a truncated measure of a truncated measure of ... of the model's measure: `chain` lists the intervals innermost first,
+    `how` has one letter per level -- "c": wrap with the class `TruncatedLevyMeasure`, "a": public
+    `LevyModel.truncate_levy_measure` called (again) on one model (a deep copy, the way the chains copy the caller's model)"""
+    model = copy.deepcopy(c.model)
+    if base is not None:
+        model.levy_triplet.nu = base
+    for (l, r), letter in zip(chain, how):
+        if letter == "a":
+            model.truncate_levy_measure((l, r))
+        else:
+            model.levy_triplet.nu = TruncatedLevyMeasure(model.levy_triplet.nu, (l, r))
+    return model.levy_triplet.nu
+
+
+def chain_interval(chain):
+    """intersection of the truncation intervals (l > r: empty)"""
+    return max(l for l, _ in chain), min(r for _, r in chain)
+
+
+def closed_form_probe(c: Case, route, n, a, b, nu=None, trunc=None, chain=None, how=None):
+    """S: one implementation value against the reference integral (over the intersection when truncated; over the intersection
+    with ALL intervals when the truncated measure wraps truncated measures: `chain`, innermost first)"""
     ctx = c.ctx
-    probe = "c09.truncated" if trunc else "c09.closed_form"
+    probe = "c09.truncated" if (trunc or chain) else "c09.closed_form"
     aa, bb = (a, b)
     if trunc:
         l, r = trunc
         aa, bb = max(a, l), min(b, r)
         if aa > bb:
             aa = bb = (l if b < l else r)      # empty intersection: expected value 0
+    if chain:
+        l, r = chain_interval(chain)
+        aa, bb = max(a, l), min(b, r)
+        if aa > bb:
+            # empty intersection: expected value 0 = the integral over a degenerate interval; the point is a truncation end
+            # (clamping [a, b] into one interval after the other, outermost first, ends in a single point as soon as one
+            # intersection is empty) -- it only classifies the input
+            aa, bb = a, b
+            for l_, r_ in reversed(chain):
+                aa, bb = max(min(aa, r_), l_), min(max(bb, l_), r_)
+            assert aa == bb, (a, b, chain)
     ref = c.ref.integral(n, aa, bb)
-    kw = dict(trunc=list(trunc)) if trunc else {}
+    kw = dict(trunc=list(trunc)) if trunc else dict(trunc_chain=[list(iv) for iv in chain], how=how) if chain else {}
     inp = c.inp(n, route, a, b, **kw)
-    cls = c.cls(n, route, aa, bb, **({"truncated": True, "outside": bool(max(a, trunc[0]) > min(b, trunc[1]))} if trunc else {}))
+    if chain:
+        l, r = chain_interval(chain)
+        cls = c.cls(n, route, aa, bb, truncated=True, outside=bool(max(a, l) > min(b, r)), nested=len(chain))
+    else:
+        cls = c.cls(n, route, aa, bb, **({"truncated": True, "outside": bool(max(a, trunc[0]) > min(b, trunc[1]))} if trunc else {}))
     if ref is None:
         unrel = any(isinstance(k_, tuple) and k_ and k_[0] == "unreliable" and k_[1][0] == n for k_ in c.ref.cache)
         at_inf = (c.ref.rate0["pos"] and bb == INF) or (c.ref.rate0["neg"] and aa == -INF)
@@ -369,7 +461,7 @@ def closed_form_probe(c: Case, route, n, a, b, nu=None, trunc=None):
                   else "skipped_not_integrable_at_0" if not (c.ref.integrable0(n) or not aa <= 0 <= bb)
                   else "skipped_untempered_tail_diverges" if at_inf else "skipped_not_integrable_at_0")
         return
-    st, v = call(nu, route, n, a, b) if trunc else c.impl(route, n, a, b)
+    st, v = call(nu, route, n, a, b) if (trunc or chain) else c.impl(route, n, a, b)
     quad_route = is_quad_route(c.fam, n, aa, bb)
     scale = c.ref.scale(n, aa, bb) if aa != bb else mp.mpf(0)
     tol = tolerance(ref, scale, quad_route, aa < 0 < bb)
@@ -660,7 +752,9 @@ def draw_points(rng, nside):
     return [-INF] + [-x for x in reversed(neg)] + [0.0] + pos + [INF]
 
 
-def density_probe(c: Case, rng, trunc_measures):
+def density_probe(c: Case, rng, trunc_measures, nested=()):
+    """`nested`: (chain, how, measure) of nested truncations -- the density must vanish outside the intersection of all intervals
+    and be the model's density inside (end points of any interval are don't-care points)"""
     ctx, nu, f = c.ctx, c.nu, c.ref.f
     xs = [p for p in c.pts if not math.isinf(p) and p != 0] + [rng.choice([-1, 1]) * math.exp(rng.uniform(-6, 0.5)) for _ in range(6)]
     for x in xs:
@@ -682,6 +776,19 @@ def density_probe(c: Case, rng, trunc_measures):
             if tv != want:
                 ctx.fail("oracle", "c09.truncated.density", dict(inp, trunc=[l, r_]), {"truncated_nu": tv, "expected": want},
                          cls=dict(family=c.fam, outside=not (l < x < r_)))
+        for chain, how, t in nested:
+            if any(x in iv for iv in chain):
+                continue
+            l, r_ = chain_interval(chain)
+            with np.errstate(all="ignore"):
+                tv = float(t(x))
+            want = v if l < x < r_ else 0.0
+            ninp = dict(inp, trunc_chain=[list(iv) for iv in chain], how=how)
+            ctx.count("c09.truncated.density", ninp, nontrivial=True, branch="nested_inside" if l < x < r_ else "nested_outside")
+            if tv != want:
+                ctx.fail("oracle", "c09.truncated.density", ninp, {"truncated_nu": tv, "expected": want,
+                                                                  "intersection": [l, r_] if l <= r_ else "empty"},
+                         cls=dict(family=c.fam, outside=not (l < x < r_), nested=len(chain)))
     # zero itself: no exception (value is a don't-care)
     try:
         nu(0.0)
@@ -733,7 +840,7 @@ def a_gt_b_probe(c: Case, rng, tms):
                                                                "implementation": v, "model": m}, cls=dict(family=c.fam, target=name))
 
 
-def run_model(ctx, fam, params, rng, nside, ntrunc, nmax=NMAX):
+def run_model(ctx, fam, params, rng, nside, ntrunc, nmax=NMAX, nnested=None):
     pts = draw_points(rng, nside)
     c = Case(ctx, fam, params, pts)
     nu, P = c.nu, c.P
@@ -774,7 +881,44 @@ def run_model(ctx, fam, params, rng, nside, ntrunc, nmax=NMAX):
             for n in (rng.sample(range(nmax + 1), 3) if not ctx.thorough else range(nmax + 1)):
                 for route in routes(n):
                     closed_form_probe(c, route, n, a, b, nu=tm, trunc=(l, r))
-    density_probe(c, rng, tms)
+    # --- truncated measures of truncated measures (2-3 levels; nested narrower / wider, overlapping, touching, disjoint; built
+    # with the class, with truncate_levy_measure called repeatedly on one model, or both): the integrals are those over the
+    # intersection of ALL intervals with [a, b].  Own generator (seeded by the case): the draws of the other probes stay as they were
+    nrng = random.Random(f"c09.nested|{fam}|{sorted(params.items())!r}|{pts!r}")
+    nested = []
+    ivs = [(l, r) for i, l in enumerate(fin_nz) for r in fin_nz[i + 1:]]
+    for t in range(nnested if nnested is not None else (3 if not ctx.thorough else 8)):
+        depth = 2 if t % 3 < 2 else 3
+        chain = [nrng.choice(ivs) for _ in range(depth)]
+        for _ in range(6):                # any relative position of the intervals; three chains in four get a non-degenerate intersection
+            l_, r_ = chain_interval(chain)
+            if l_ < r_ or t % 4 == 3:
+                break
+            chain = [nrng.choice(ivs) for _ in range(depth)]
+        if t == 0:                        # outer interval wider than / overlapping the inner one: the inner restriction must survive
+            chain = sorted(nrng.sample(ivs, 2), key=lambda iv: iv[1] - iv[0])
+        how = "".join(nrng.choice("ca") for _ in range(depth)) if t else nrng.choice(["cc", "aa"])
+        tmn = nested_measure(c, chain, how)
+        nested.append((chain, how, tmn))
+        spy = _Spy(nu)
+        tsp = nested_measure(c, chain, how, base=spy)
+        for a, b in (pairs if (t % 3 != 1 or ctx.thorough) else ()):        # quick: one 2-level and one 3-level chain per model
+            # C: the interval that reaches the wrapped model measure = M's truncatedIntervalE applied once per level, outermost first
+            m = [w(a), w(b)]
+            for l_, r_ in reversed(chain):
+                m = ctx.lean(f"trunc {w(l_)} {w(r_)} {m[0]} {m[1]}").split(" ")
+            spy.seen = None
+            st = call(tsp, "named" if a != b or nrng.random() < 0.5 else "xn", 0, a, b)
+            inp = dict(trunc_chain=[list(iv) for iv in chain], how=how, a=a, b=b)
+            ctx.count("c09.trunc.model", inp, nontrivial=True, branch="nested")
+            if st[0] != "ok" or spy.seen is None or [w(float(spy.seen[0])), w(float(spy.seen[1]))] != m:
+                ctx.fail("corr", "c09.trunc.model", inp, {"name": "Integrals.truncatedIntervalE composed per level vs the interval a nested "
+                         "TruncatedLevyMeasure passes to the wrapped measure", "implementation": [st[0], repr(spy.seen)], "model": m},
+                         cls=dict(family=fam, nested=len(chain)))
+            for n in (nrng.sample(range(nmax + 1), min(2, nmax + 1)) if not ctx.thorough else range(nmax + 1)):
+                for route in routes(n):
+                    closed_form_probe(c, route, n, a, b, nu=tmn, chain=chain, how=how)
+    density_probe(c, rng, tms, nested)
     own_density_probe(c, rng, 4 if not ctx.thorough else 10, nmax)
     a_gt_b_probe(c, rng, tms)
     # --- C: closed forms that M has as exponential terms
@@ -855,10 +999,20 @@ def reinit_probe(ctx, fam, params, rng):
 
 def xn_helper_stream(ctx, rng, count):
     """tools/integral.py: polynomial (exact vs M), sign logic (terms vs M), value (vs quadrature)"""
-    for _ in range(count):
+    # the polynomial helper is a PRIVATE function: when a refactoring removes or renames it the public integral
+    # `integral_xn_exp_minus_x` below is still compared term by term and against quadrature; only this finer tie is unavailable
+    helper = getattr(toolint, "_helper_sum_fact_xk", None)
+    if helper is None:
+        ctx.notes.append("private helper rpylib.tools.integral._helper_sum_fact_xk is gone: its tie with Integrals.helperSum is "
+                         "unavailable (the public integral_xn_exp_minus_x is still compared)")
+    for _ in range(count if helper is not None else 0):
         n = rng.randint(0, 9)
         y = rng.choice([0.0, 1.0, -1.0, rng.uniform(-6, 6), rng.uniform(-40, 40), float(rng.randint(-8, 8)) / 4])
-        got = float(toolint._helper_sum_fact_xk(n, y))
+        try:
+            got = float(helper(n, y))
+        except TypeError:            # same name, another signature: not the function the model mirrors
+            ctx.notes.append("private helper _helper_sum_fact_xk has another signature: tie unavailable")
+            break
         m = rd(ctx.lean(f"helper {n} {w(y)}"))
         inp = dict(n=n, y=y)
         ctx.count("c09.helper.model", inp, nontrivial=n >= 2 and y != 0)
@@ -1026,6 +1180,183 @@ def generic_fallback_probe(ctx, rng, fam, params, nside):
                          {"name": "a > b is an error (base class)", "implementation": v}, cls=dict(family=fam, target="base"))
 
 
+# ------------------------------------------------------------------------------------------------ parameter regimes
+REGIME_NMAX = 3
+REGIME_KS = (0.5, 1.0, 3.0, 6.0)
+
+
+def _lu(rng, lo, hi):
+    return float(f"{math.exp(rng.uniform(math.log(lo), math.log(hi))):.3g}")
+
+
+def regime_stream(rng, thorough):
+    """(family, params, label): models at the edges of every family's LEGAL box instead of the documented 'typical' boxes of
+    zoo.draw_params -- extreme RATIOS between the parameters of one family, one draw per stratum and round:
+    Merton mu_j / sigma_j in {0}, (0.05, 1), (1, 10), (10, 50), (50, 120) (the jump mean up to ~100 jump standard deviations away
+    from 0; sigma_j from 2e-4 to 3; a negative mu_j is attempted and counted: the constructor rejects it);
+    HEM eta1 / eta2 in (1e-2, 1e-1), (0.3, 3), (10, 100) x p near 0 / in the middle / near 1;
+    VG theta / sigma in (-30, -3), (-1, 1), (3, 30) x nu tiny / ordinary / large;
+    CGMY g / m in (1e-2, 1e-1), (0.3, 3), (10, 100) x c tiny / ordinary / large, y on a random activity branch."""
+    out = []
+    for _ in range(4 if thorough else 1):
+        for lo, hi in ((0, 0), (0.05, 1), (1, 10), (10, 50), (50, 120)):
+            if hi <= 1:
+                ratio = 0.0 if hi == 0 else _lu(rng, lo, hi)
+                sj = _lu(rng, 1e-3, 3.0)
+                mu = float(f"{ratio * sj:.3g}")
+            else:
+                ratio = _lu(rng, lo, hi)
+                mu = _lu(rng, 0.02, 3.0)
+                sj = float(f"{mu / ratio:.3g}")
+            out.append(("merton", dict(sigma=round(rng.uniform(0.0, 0.3), 3), sigma_j=sj, mu_j=mu, intensity=round(rng.uniform(0.5, 8), 2)),
+                        f"mu_j/sigma_j in [{lo},{hi}]"))
+        out.append(("merton", dict(sigma=0.1, sigma_j=_lu(rng, 1e-3, 0.1), mu_j=-_lu(rng, 0.02, 3.0), intensity=1.0), "mu_j<0"))
+        ratios = [(1e-2, 1e-1), (0.3, 3.0), (10.0, 100.0)]
+        third = [0, 1, 2]
+        rng.shuffle(third)
+        for (lo, hi), t in zip(ratios, third):
+            ratio, gm = _lu(rng, lo, hi), _lu(rng, 3.0, 60.0)
+            eps = _lu(rng, 1e-6, 1e-2)
+            p = [eps, round(rng.uniform(0.2, 0.8), 3), 1.0 - eps][t]
+            out.append(("hem", dict(sigma=round(rng.uniform(0.0, 0.3), 3), p=p, eta1=float(f"{max(gm * math.sqrt(ratio), 1.2):.3g}"),
+                                    eta2=float(f"{gm / math.sqrt(ratio):.3g}"), intensity=round(rng.uniform(0.5, 8), 2)),
+                        f"eta1/eta2 in [{lo},{hi}], p {['near 0', 'middle', 'near 1'][t]}"))
+        rng.shuffle(third)
+        for (lo, hi), t in zip([(-30.0, -3.0), (-1.0, 1.0), (3.0, 30.0)], third):
+            ratio = round(rng.uniform(lo, hi), 2) if lo < 0 < hi else math.copysign(_lu(rng, min(abs(lo), abs(hi)), max(abs(lo), abs(hi))), lo)
+            sg = _lu(rng, 0.02, 1.0)
+            nu_ = [_lu(rng, 1e-3, 1e-2), _lu(rng, 0.03, 0.4), _lu(rng, 1.0, 10.0)][t]
+            out.append(("vg", dict(sigma=sg, nu=nu_, theta=float(f"{ratio * sg:.3g}")),
+                        f"theta/sigma in [{lo},{hi}], nu {['tiny', 'ordinary', 'large'][t]}"))
+        rng.shuffle(third)
+        for (lo, hi), t in zip(ratios, third):
+            ratio, gm = _lu(rng, lo, hi), _lu(rng, 3.0, 60.0)
+            cc = [_lu(rng, 1e-3, 1e-2), _lu(rng, 0.2, 2.0), _lu(rng, 10.0, 100.0)][t]
+            prm = zoo.draw_params(rng, "cgmy")
+            out.append(("cgmy", dict(c=cc, g=float(f"{gm * math.sqrt(ratio):.3g}"), m=float(f"{gm / math.sqrt(ratio):.3g}"), y=prm["y"]),
+                        f"g/m in [{lo},{hi}], c {['tiny', 'ordinary', 'large'][t]}"))
+    return out
+
+
+def feature_points(fam, P):
+    """break points placed RELATIVE TO THE FEATURES OF THE DENSITY: Merton -- the jump mean (the mode) and mu_j +- k sigma_j; the
+    exponentially tempered families -- k decay lengths on each side (1/eta1, 1/eta2; 1/lambda_p, 1/lambda_m; 1/m, 1/g); k in
+    {0.5, 1, 3, 6}; plus 0 and both infinities"""
+    if fam == "merton":
+        mu, s = float(P.mu_j), float(P.sigma_j)
+        pts = {mu} | {mu + sg * k * s for k in REGIME_KS for sg in (1, -1)}
+    else:
+        pos, neg = scales_of(fam, P)
+        pts = {k * float(pos) for k in REGIME_KS} | {-k * float(neg) for k in REGIME_KS}
+    return [-INF] + sorted(pts | {0.0}) + [INF]
+
+
+def analytic_piece(fam, P, n, lo, hi):
+    """integral of x^n * density over [lo, hi] (0 not strictly inside) from mpmath's special functions at 50 digits: Gaussian partial
+    moments by the recurrence I_k = z_a^(k-1) phi(z_a) - z_b^(k-1) phi(z_b) + (k-1) I_(k-2) (Merton), generalised incomplete gamma
+    function (the others).  Independent of the tanh-sinh quadrature it is used to verify."""
+    with mp.workdps(50):
+        if fam == "merton":
+            lam, mu, s = M(P.intensity), M(P.mu_j), M(P.sigma_j)
+            za, zb = (M(lo) - mu) / s, (M(hi) - mu) / s
+            r2 = mp.sqrt(2)
+            bt = lambda z, k: mp.mpf(0) if mp.isinf(z) else z ** k * mp.exp(-z * z / 2) / mp.sqrt(2 * mp.pi)
+            if za >= 0:
+                i0 = (mp.erfc(za / r2) - mp.erfc(zb / r2)) / 2
+            elif zb <= 0:
+                i0 = (mp.erfc(-zb / r2) - mp.erfc(-za / r2)) / 2
+            else:
+                i0 = (mp.erf(zb / r2) - mp.erf(za / r2)) / 2
+            I = [i0, bt(za, 0) - bt(zb, 0)]
+            for k in range(2, n + 1):
+                I.append(bt(za, k - 1) - bt(zb, k - 1) + (k - 1) * I[k - 2])
+            return lam * sum(mp.binomial(n, k) * mu ** (n - k) * s ** k * I[k] for k in range(n + 1))
+        sgn, u, v = (1, M(lo), M(hi)) if lo >= 0 else (-1, M(-hi), M(-lo))
+        if fam == "hem":
+            lam, p, e1, e2 = M(P.intensity), M(P.p), M(P.eta1), M(P.eta2)
+            rate, k, order = (e1, lam * p * e1, n + 1) if sgn > 0 else (e2, lam * (1 - p) * e2, n + 1)
+        elif fam == "vg":
+            sg, nu_, th = M(P.sigma), M(P.nu), M(P.theta)
+            lp = mp.sqrt(th ** 2 + 2 * sg ** 2 / nu_) / sg ** 2 - th / sg ** 2
+            rate, k, order = (lp if sgn > 0 else lp + 2 * th / sg ** 2), 1 / nu_, mp.mpf(n)
+        else:
+            rate, k, order = (M(P.m) if sgn > 0 else M(P.g)), M(P.c), n - M(P.y)
+        return sgn ** n * k * rate ** (-order) * mp.gammainc(order, rate * u, rate * v)
+
+
+class RegimeCase(Case):
+    """a Case whose recorded inputs and classes carry the parameter regime"""
+    regime = None
+
+    def cls(self, n, route, a, b, **kw):
+        d = super().cls(n, route, a, b, regime=True, **kw)
+        if self.fam == "merton":
+            # how far the jump mean is from 0 and how wide the interval is, both in jump standard deviations (1e300: infinite)
+            d["mean_over_std"] = float(self.P.mu_j) / float(self.P.sigma_j)
+            d["width_over_std"] = (b - a) / float(self.P.sigma_j) if math.isfinite(b - a) else 1e300
+        return d
+
+    def inp(self, n, route, a, b, **kw):
+        return super().inp(n, route, a, b, regime=self.regime, **kw)
+
+
+def regime_probe(ctx, fam, params, label, rng):
+    """S on one model of regime_stream: every pair of feature points x n = 0..3 x both routes against the reference integral
+    (closed_form_probe), additivity / signs over the feature points, two truncations at feature points (class and
+    truncate_levy_measure), quadrature of the model's own `nu`.  Before anything is judged the reference pieces are themselves
+    verified against the analytic value (narrow peaks: a quadrature could miss them); a piece that disagrees is discarded and the
+    cases that need it are counted as skipped"""
+    desc = dict(model_desc(fam, params), regime=label)
+    try:
+        _, nu0 = make_nu(fam, params)
+    except ValueError as e:
+        ctx.count("c09.regime", desc, nontrivial=False, branch="rejected_by_constructor")
+        return None
+    pts = feature_points(fam, nu0.parameters)
+    c = RegimeCase(ctx, fam, params, pts)
+    c.regime = label
+    ctx.count("c09.regime", desc, nontrivial=True, branch=fam)
+    for n in range(REGIME_NMAX + 1):
+        for lo, hi in zip(pts, pts[1:]):
+            v = c.ref.piece(n, lo, hi)
+            if v is None:
+                continue
+            an = analytic_piece(fam, c.P, n, lo, hi)
+            ok = abs(v - an) <= mp.mpf("1e-13") * abs(an) + mp.mpf("1e-25")
+            ctx.count("c09.regime.reference", dict(desc, n=n, a=lo, b=hi), nontrivial=abs(an) > 1e-9, branch="agrees" if ok else "DISAGREES")
+            if not ok:
+                c.ref.cache[(n, lo, hi)] = None
+                c.ref.cache[("unreliable", (n, lo, hi))] = True
+    k = len(pts)
+    pairs = [(pts[i], pts[j]) for i in range(k) for j in range(i + 1, k)]
+    pairs += [(p, p) for p in rng.sample([p for p in pts if not math.isinf(p)], 2)]
+    for n in range(REGIME_NMAX + 1):
+        for route in routes(n):
+            for a, b in pairs:
+                closed_form_probe(c, route, n, a, b)
+            # additivity / signs on a sub-grid (both infinities + 6 of the finite points; thorough: all): O(k^3) triples
+            c.pts = pts if ctx.thorough else [-INF] + sorted(rng.sample(pts[1:-1], 6)) + [INF]
+            additivity_sign_probe(c, n, route)
+            c.pts = pts
+    fin_nz = [p for p in pts if not math.isinf(p) and p != 0]
+    for how in ("c", "a"):
+        l, r = sorted(rng.sample(fin_nz, 2))
+        tm = nested_measure(c, [(l, r)], how)
+        for a, b in rng.sample(pairs, 16) + [(-INF, INF)]:
+            for n in range(REGIME_NMAX + 1):
+                for route in routes(n):
+                    closed_form_probe(c, route, n, a, b, nu=tm, trunc=(l, r))
+    own_density_probe(c, rng, 4, REGIME_NMAX)
+    return c
+
+
+def regime_run(ctx):
+    """own generator (seeded by VERIF_SEED): the draws of the other streams stay as they were"""
+    rng = random.Random(f"c09.regime|{ctx.seed}")
+    for fam, params, label in regime_stream(rng, ctx.thorough):
+        regime_probe(ctx, fam, params, label, rng)
+
+
 # past failing inputs (corpus role): base-class quadrature over an interval straddling 0, before fd99be5 off by 4e-8..2e-7
 REGRESSIONS = [
     ("cgmy", {}, 3, -0.678, 0.0108),
@@ -1094,6 +1425,7 @@ def run(ctx):
     for fam in ("hem", "merton"):
         for _ in range(ctx.n(1, 6)):
             generic_fallback_probe(ctx, rng, fam, zoo.draw_params(rng, fam), 2)
+    regime_run(ctx)
     if _STATS is not None:
         for k_, v_ in sorted(_STATS.items(), key=lambda kv: -kv[1][0])[:40]:
             print("STAT", k_, v_)
@@ -1115,6 +1447,8 @@ def replay(ctx, rec):
     if probe.startswith("c09.xnexp") or probe.startswith("c09.helper"):
         rng = ctx.rng
         if "y" in d:
+            if not hasattr(toolint, "_helper_sum_fact_xk"):
+                return
             got = float(toolint._helper_sum_fact_xk(d["n"], d["y"]))
             m = rd(ctx.lean(f"helper {d['n']} {w(d['y'])}"))
             ctx.count("c09.helper.model", d)
@@ -1140,11 +1474,14 @@ def replay(ctx, rec):
         c = Case(ctx, fam, params, [-INF, 0.0, INF])
         c.pts = [d["x"]]
         tms = [((d["trunc"][0], d["trunc"][1]), TruncatedLevyMeasure(c.nu, tuple(d["trunc"])))] if "trunc" in d else []
-        density_probe(c, ctx.rng, tms)
+        chain = [tuple(float(t) for t in iv) for iv in d.get("trunc_chain", [])]
+        density_probe(c, ctx.rng, tms, [(chain, d["how"], nested_measure(c, chain, d["how"]))] if chain else ())
         return
     a, b, n, route = float(d["a"]), float(d["b"]), d["n"], d.get("route", "xn")
-    pts = sorted({-INF, INF, 0.0, a, b} | ({float(d["split"])} if "split" in d else set()) | ({float(t) for t in d["trunc"]} if "trunc" in d else set()))
-    c = Case(ctx, fam, params, pts)
+    pts = sorted({-INF, INF, 0.0, a, b} | ({float(d["split"])} if "split" in d else set()) | ({float(t) for t in d["trunc"]} if "trunc" in d else set())
+                 | {float(t) for iv in d.get("trunc_chain", []) for t in iv})
+    c = (RegimeCase if "regime" in d else Case)(ctx, fam, params, pts)
+    c.regime = d.get("regime")
     if d.get("generic"):
         g = _Generic(c.nu)
         ref = c.ref.integral(n, a, b)
@@ -1162,7 +1499,10 @@ def replay(ctx, rec):
         ctx.count("c09.reinit", d)
         if not ((st == st0) and (st != "ok" or v == v0 or (v != v and v0 != v0))):
             ctx.fail("oracle", "c09.reinit", d, {"reinitialised": v, "fresh": v0}, cls=c.cls(n, route, a, b, reinit=True))
-    if "trunc" in d:
+    if "trunc_chain" in d:
+        chain = [tuple(float(t) for t in iv) for iv in d["trunc_chain"]]
+        closed_form_probe(c, route, n, a, b, nu=nested_measure(c, chain, d["how"]), chain=chain, how=d["how"])
+    elif "trunc" in d:
         l, r = d["trunc"]
         closed_form_probe(c, route, n, a, b, nu=TruncatedLevyMeasure(c.nu, (l, r)), trunc=(l, r))
     else:
